@@ -13,6 +13,7 @@ import (
 	"io"
 	"os"
 	"os/exec"
+	"strings"
 	"sync"
 
 	"github.com/welllog/golib/cryptz"
@@ -518,6 +519,26 @@ func c09Gen(c *Ctx) {
 			ad := rbytes(t, t.R.Intn(20))
 			t.Try("salt-gcm-decrypt-valid", c09Case(7, int64(t.R.Intn(2)), 0, flags, 0, 0, refGCMMessage(p, secret, salt, ad), secret, nil, ad, nil), true)
 		}
+	})
+	// B1. messages laid out the way `openssl enc -a` writes them: base64 wrapped at 64 columns (LF or CRLF, with and without
+	// the final line break); every plaintext length 0..120 so that the number of line breaks takes every residue mod 4
+	c.Each(121*c.N(2, 6), func(i int, t *T) {
+		n := i % 121
+		p, secret, salt := rbytes(t, n), c09Secret(t), rbytes(t, 8)
+		b64 := base64.StdEncoding.EncodeToString(refCBCMessage(p, secret, salt))
+		nl := []string{"\n", "\r\n"}[t.R.Intn(2)]
+		width := []int{64, 64, 76, 4, 1}[t.R.Intn(5)]
+		var sb strings.Builder
+		for len(b64) > width {
+			sb.WriteString(b64[:width])
+			sb.WriteString(nl)
+			b64 = b64[width:]
+		}
+		sb.WriteString(b64)
+		if t.R.Intn(2) == 0 {
+			sb.WriteString(nl)
+		}
+		t.Try("decrypt-line-wrapped-base64", c09Case(1, 0, 0, int64(t.R.Intn(8)), 0, 0, []byte(sb.String()), secret, nil, nil, nil), true)
 	})
 	// B2. the key derivation over EVERY secret length up to a bound and around larger powers of two (a scratch buffer of
 	// 256/512/1024/4096 bytes for prevSum||secret||salt misjudged by a few bytes only shows for secrets in an 8-byte
